@@ -261,7 +261,60 @@ class Check:
                     items_ = [(None, lambda a, msg=msg: ("malformed-result", msg))]
                 for line, pred in items_:
                     pending.append((line, pred, (case, fmt, ot, got)))
+        self._last_judge = judge
+        n0 = len(self.failures)
         self.run_pending(pending)
+        for f in self.failures[n0:]:
+            f["_judge"] = judge
+
+    def judge_one(self, case, fmt, ot, judge):
+        """evaluate one case on the implementation with the given judge -> list of failure kinds (used by the shrinker)"""
+        alg = ALGS[case["alg"]]
+        names = names_for(fmt, case["vals"], random.Random(sha([case["vals"], fmt])))
+        ids = ids_for(fmt, case["vals"], names)
+        ans = model_query([alg.request(case, ids, ot not in SUMS_ONLY, outtype=ot)])[0]
+        got = timed(lambda: alg.call_impl(case, fmt, ot, names), limit=20)
+        try:
+            items_ = judge(case, fmt, ot, got, names, ans)
+        except Exception as e:      # noqa
+            return ["malformed-result"], got
+        lines = [l for l, _ in items_ if l is not None]
+        answers = iter(model_query(lines)) if lines else iter([])
+        kinds = []
+        for l, pred in items_:
+            r = pred(next(answers) if l is not None else None)
+            if r:
+                kinds.append(r[0] if isinstance(r, tuple) else "property")
+        return kinds, got
+
+    def shrink(self, f, budget=60):
+        """greedy delta debugging of a failing case: drop items, then halve values, while a failure of the same kind persists"""
+        judge = f.get("_judge")
+        case = f["case"]
+        if judge is None or case.get("alg") not in ALGS or f["fmt"] not in FORMATS or f["outtype"] not in OUTTYPES:
+            return f
+        best, tried, kind = dict(case, vals=list(case["vals"])), 0, f["kind"]
+        best_got = f["observed"]
+        progress = True
+        while progress and tried < budget:
+            progress = False
+            cands = [best["vals"][:i] + best["vals"][i + 1:] for i in range(len(best["vals"]))] if len(best["vals"]) > 1 else []
+            cands += [best["vals"][:i] + [best["vals"][i] // 2] + best["vals"][i + 1:] for i in range(len(best["vals"])) if best["vals"][i] > 1]
+            for vals in cands:
+                if tried >= budget:
+                    break
+                tried += 1
+                cand = {"alg": best["alg"], "vals": vals, "p": dict(best["p"])}
+                try:
+                    kinds, got = self.judge_one(cand, f["fmt"], f["outtype"], judge)
+                except Exception:      # noqa
+                    continue
+                if kind in kinds or ("names-not-values:" + kind) in kinds or kind.replace("names-not-values:", "") in kinds:
+                    best, best_got, progress = cand, got, True
+                    break
+        if best["vals"] != case["vals"]:
+            f = dict(f, case=best, observed=best_got, shrunk_from={"vals": case["vals"]}, note_shrunk=f"shrunk from {len(case['vals'])} to {len(best['vals'])} items in {tried} evaluations")
+        return f
 
     def direct(self, stream, triples, nontrivial=None):
         """correspondence for direct calls (objectives, bounds, enumerators, manager operations):
@@ -344,6 +397,11 @@ class Check:
                 if key in seen:
                     continue
                 seen.add(key)
+                try:
+                    f = self.shrink(f)
+                except Exception:      # noqa  (shrinking is a convenience; the unshrunk case is a valid replay)
+                    pass
+                f = {k_: v_ for k_, v_ in f.items() if k_ != "_judge"}
                 path = write_replay(dict(f, kind_of_replay="counterexample"))
                 violations.append(f"VIOLATION property={self.pid} replay={path}")
         elif self.disagreements or broken or not aud["build_ok"]:
